@@ -93,7 +93,7 @@ pub fn run(ctx: &mut Ctx) {
     for (ri, r) in regions.iter().enumerate() {
         for (fi, f) in fronts.iter().enumerate() {
             for otaa in [false, true] {
-                for part in 0..8u8 {
+                for part in 0..9u8 {
                     if thorough || (ri + fi + otaa as usize) % 3 == 0 {
                         jobs.push((*r, *f, otaa, part));
                     }
@@ -177,6 +177,29 @@ pub fn run(ctx: &mut Ctx) {
                             emit(vec![Cmd::DlChannelReq { idx, freq: *f }], st, "sweep-DlChannelReq");
                             if idx < 16 {
                                 emit(vec![Cmd::NewChannelReq { idx, freq: freqs[4], dr_range: 0x50 }, Cmd::DlChannelReq { idx, freq: *f }], st, "sweep-DlChannelReq");
+                            }
+                        }
+                    }
+                }
+                7 => {
+                    // many requests in one frame: 1..=16 copies of every request that has an answer,
+                    // with and without a leading one-byte answer, so that the queued answers hit every
+                    // fill level 0..=15 (and beyond) right before an answer of every size is queued
+                    let f = freqs[4];
+                    let reqs = [Cmd::DevStatusReq, Cmd::LinkAdrReq { dr: 15, txp: 15, mask: 7, cntl: 0, nbtrans: 1 }, Cmd::RxParamSetupReq { dl_settings: 0, freq: f }, Cmd::RxTimingSetupReq(2), Cmd::NewChannelReq { idx: 5, freq: f, dr_range: 0x50 }, Cmd::DlChannelReq { idx: 0, freq: f }];
+                    for a in &reqs {
+                        for b in &reqs {
+                            for n in 1..=16usize {
+                                for lead in 0..3usize {
+                                    let mut v: Vec<Cmd> = (0..lead).map(|_| Cmd::RxTimingSetupReq(1)).collect();
+                                    v.extend((0..n).map(|_| a.clone()));
+                                    v.push(b.clone());
+                                    // FOpts holds at most 15 bytes of requests; longer streams go to port 0
+                                    let bytes = Cmd::encode_all(&v).len();
+                                    let r = if bytes <= 15 && (n + lead) % 2 == 0 { Recipe::auth_cmds(1, v) } else { Recipe::Auth { delta: 1, confirmed: false, port: Some(0), payload_len: 0, fopts: vec![], frm_cmds: v, ack: false, fpending: false } };
+                                    let h = base_history(&cfg, *otaa, rng.next_u64(), vec![Step::Send { port: 1, len: 2, confirmed: false, rx: RxPlan::rx1(r) }]);
+                                    run_one(&h, st, "sweep-many-requests");
+                                }
                             }
                         }
                     }
